@@ -400,6 +400,15 @@ def member_pool():
         f = tinyfont.build(P["ttf-box"])
         f["name"].setName("Tiny Two", 1, 3, 1, 0x409)
         _MEMBERS["box2"] = tinyfont.to_bytes(f)
+        # same tables as box except that two hmtx records trade places: equal length, equal checksum (the
+        # checksum is a sum of 32-bit words), different bytes
+        f = tinyfont.build(P["ttf-box"])
+        order = f.getGlyphOrder()
+        m = f["hmtx"].metrics
+        g1, g2 = [g for g in order if g != ".notdef"][:2]
+        assert m[g1] != m[g2], (m[g1], m[g2])
+        m[g1], m[g2] = m[g2], m[g1]
+        _MEMBERS["boxswap"] = tinyfont.to_bytes(f)
         _MEMBERS["mixed"] = tinyfont.build_bytes(P["ttf-mixed"])
         _MEMBERS["cff"] = tinyfont.build_bytes(P["cff-mixed"])
         _MEMBERS["mark"] = tinyfont.build_bytes(P["ttf-mark"])
@@ -408,7 +417,7 @@ def member_pool():
 
 class TTCSave(Unit):
     name = "ttc-save"
-    rule = ("TTCollection.save: every ordered tuple (repetition allowed) of 2 (quick: and 3 over 3 fonts; thorough: 3 over all 5) member fonts from {box, box with another name, mixed+composite, CFF, mark} x shareTables in {True, False} x members decoded or not x TTC header version (1.0; 2.0 with empty / real DSIG). "
+    rule = ("TTCollection.save: every ordered tuple (repetition allowed) of 2 (quick: and 3 over 3 fonts; thorough: 3 over all 5) member fonts from {box, box with another name, box with two hmtx records swapped (same length and checksum), mixed+composite, CFF, mark} x shareTables in {True, False} x members decoded or not x TTC header version (1.0; 2.0 with empty / real DSIG). "
             "Oracle: otspec reads header, offsets and every member directory without problem (alignment, padding, no partial overlap, no gap, table checksums); every member's tables equal its stand-alone save; with shareTables byte-identical tables are stored once, without it no block is referenced twice. distinct = (members, options)")
     chunk = 4
     required_witnesses = ("table physically shared", "no table shared", "identical members share every table", "TTC v2 with DSIG", "TTC v2 empty DSIG", "3 members", "decoded members")
